@@ -226,6 +226,11 @@ def rules_macro(run, rid='C03.6'):
         run.check(not calls_bad, r, m.short, 'no reordering', 'aggregation reorders the micro steps', M)
         if prop in ('entered_states', 'exited_states', 'sent_events'):
             rets = [n for n in q.walk(M, False) if isinstance(n, ast.Return)]
+            # a shortcut for a macro step made of one micro step: `return list(self._steps[0].<prop>)` under len(self._steps) == 1 is the concatenation
+            one = 'self.%s[0].%s' % (fld, prop)
+            shortcuts = [x for x in rets if x.value is not None and q.unparse(strip_cast(x.value)) in ('list(%s)' % one, one + '[:]', '[] + ' + one, one + '.copy()', '[*%s]' % one)
+                         and any(a[0] == '==' and {a[1], a[2]} == {'len(self.%s)' % fld, '1'} for a in guard_atoms(x))]
+            rets = [x for x in rets if x not in shortcuts]
             good = len(rets) == 1 and isinstance(rets[0].value, ast.Name)
             comp = strip_cast(rets[0].value) if len(rets) == 1 else None
             if isinstance(comp, ast.ListComp):
